@@ -49,7 +49,7 @@ def callStr : Call → String
   | .mkdtemp t => s!"mkdtemp {hex t}"
   | .mkdir p => s!"mkdir {hex p}"
   | .rmdir p => s!"rmdir {hex p}"
-  | .fork => "fork"
+  | .fork argv s => s!"fork {s} {argv.length}{String.join (argv.map fun a => " " ++ hex a)}"
   | .waitpid => "waitpid"
 
 def resStr : Res → String
@@ -90,7 +90,13 @@ def parseCall (ts : List String) : Option (Call × List String) :=
   | "mkdtemp" :: p :: r => (unhex p).map fun p => (.mkdtemp p, r)
   | "mkdir" :: p :: r => (unhex p).map fun p => (.mkdir p, r)
   | "rmdir" :: p :: r => (unhex p).map fun p => (.rmdir p, r)
-  | "fork" :: r => some (.fork, r)
+  | "fork" :: s :: k :: r => do
+    -- `fork <stdin handle> <argc> <arg>*`: the handle the child dup2s onto 0 and the vector it hands to execvp
+    let s ← n s; let k ← n k
+    if r.length < k then none
+    else
+      let av ← (r.take k).mapM unhex
+      pure (.fork av s, r.drop k)
   | "waitpid" :: r => some (.waitpid, r)
   | _ => none
 
